@@ -66,27 +66,37 @@ fn main() {
     }
     let input: Value = serde_json::from_str(&std::fs::read_to_string(&args[2]).expect("read cases")).expect("parse cases");
     let cases = input["cases"].as_array().expect("cases array");
-    let observed: Vec<Value> = match args[1].as_str() {
-        "c01" => cases.iter().map(|c| guard(c, c01::run)).collect(),
-        "c02" => cases.iter().map(|c| guard(c, c02::run)).collect(),
-        "c03" => cases.iter().map(|c| guard(c, c03::run)).collect(),
-        "c04" => cases.iter().map(|c| guard(c, c04::run)).collect(),
-        "c07" => cases.iter().map(|c| guard(c, c07::run)).collect(),
-        "c08" => cases.iter().map(|c| guard(c, c08::run)).collect(),
-        "c09" => cases.iter().map(|c| guard(c, c09::run)).collect(),
-        "c19" => cases.iter().map(|c| guard(c, c19::run)).collect(),
-        "c20" => cases.iter().map(|c| guard(c, c20::run)).collect(),
-        "fsops" => cases.iter().map(|c| guard(c, fsops::run)).collect(),
-        "c11" => cases.iter().map(|c| guard(c, c11::run)).collect(),
-        "c12" => cases.iter().map(|c| guard(c, c12::run)).collect(),
-        "c13" => cases.iter().map(|c| guard(c, c13::run)).collect(),
-        "c14" => cases.iter().map(|c| guard(c, c14::run)).collect(),
-        "c18" => cases.iter().map(|c| guard(c, c18::run)).collect(),
-        "lt" => cases.iter().map(|c| guard(c, lt::run)).collect(),
+    let run: fn(&Value) -> Value = match args[1].as_str() {
+        "c01" => c01::run,
+        "c02" => c02::run,
+        "c03" => c03::run,
+        "c04" => c04::run,
+        "c07" => c07::run,
+        "c08" => c08::run,
+        "c09" => c09::run,
+        "c19" => c19::run,
+        "c20" => c20::run,
+        "fsops" => fsops::run,
+        "c11" => c11::run,
+        "c12" => c12::run,
+        "c13" => c13::run,
+        "c14" => c14::run,
+        "c18" => c18::run,
+        "lt" => lt::run,
         other => {
             eprintln!("unknown stream {other}");
             std::process::exit(2);
         }
     };
+    // one observation per line, flushed case by case: if the code under test takes the whole process down
+    // (stack overflow, abort) the driver still knows which case did it -- the first one without a line
+    use std::io::Write as _;
+    let mut progress = std::fs::File::create(format!("{}.progress", args[3])).expect("create progress file");
+    let mut observed: Vec<Value> = Vec::with_capacity(cases.len());
+    for c in cases {
+        writeln!(progress, "{}", c["id"]).expect("write progress");
+        progress.flush().expect("flush progress");
+        observed.push(guard(c, run));
+    }
     std::fs::write(&args[3], serde_json::to_string(&Value::Array(observed)).unwrap()).expect("write observed");
 }
